@@ -82,6 +82,9 @@ type c20Elem struct {
 	Cells   [][]c20Run `json:"cells,omitempty"` // table: rows × cols, one run per cell
 	HdrBold bool       `json:"hdr_bold,omitempty"`
 	Label   string     `json:"label"`
+	// table with horizontally merged cells: built as a full Cols-wide grid, then MergeCellsHorizontal(row, from, to);
+	// Cells holds the cells that remain (rows of different lengths)
+	Merge []int `json:"merge,omitempty"` // cols, row, from, to
 }
 
 type c20Opts struct {
@@ -351,6 +354,38 @@ func c20Build(els []c20Elem) (*document.Document, error) {
 			doc.AddParagraph("")
 		case "table":
 			cfg := &document.TableConfig{Rows: len(e.Cells), Cols: len(e.Cells[0]), Width: 9000}
+			if len(e.Merge) == 4 {
+				// full grid first: the merged row gets empty cells where the merge will swallow them
+				cfg.Cols = e.Merge[0]
+				for r, row := range e.Cells {
+					var d []string
+					for c := 0; c < cfg.Cols; c++ {
+						src := c
+						if r == e.Merge[1] {
+							switch {
+							case c > e.Merge[2] && c <= e.Merge[3]:
+								src = -1
+							case c > e.Merge[3]:
+								src = c - (e.Merge[3] - e.Merge[2])
+							}
+						}
+						if src >= 0 && src < len(row) {
+							d = append(d, row[src].Text)
+						} else {
+							d = append(d, "")
+						}
+					}
+					cfg.Data = append(cfg.Data, d)
+				}
+				t, err := doc.AddTable(cfg)
+				if err != nil {
+					return nil, err
+				}
+				if err := t.MergeCellsHorizontal(e.Merge[1], e.Merge[2], e.Merge[3]); err != nil {
+					return nil, err
+				}
+				continue
+			}
 			for _, row := range e.Cells {
 				var d []string
 				var em []int
@@ -740,7 +775,15 @@ var c20Conv *markdown.Converter
 
 func c20Export(doc *document.Document, o c20Opts) (md string, fail string) {
 	var err error
-	if p := guard(func() { md, err = markdown.NewExporter(nil).ExportToString(doc, o.export()) }); p != "" {
+	// other configurations exist in the same process (the library's high-quality preset and a customised
+	// copy of the defaults); the library default itself is requested the way a caller would: with nil options
+	hq := markdown.HighQualityExportOptions()
+	hq.UseGFMTables = false
+	opts := o.export()
+	if o.nonDefault() == 0 {
+		opts = nil
+	}
+	if p := guard(func() { md, err = markdown.NewExporter(nil).ExportToString(doc, opts) }); p != "" {
 		return "", "panic|export|" + panicClass(p)
 	}
 	if err != nil {
@@ -1348,6 +1391,19 @@ func c20TableDiff(a, b *c20Block, e *c20Elem) string {
 		return fmt.Sprintf("rows:%d->%d", len(a.Cells), len(b.Cells))
 	}
 	for r := range a.Cells {
+		if len(e.Merge) == 4 && len(b.Cells[r]) > len(a.Cells[r]) {
+			// a row with merged cells may come back padded with empty cells (Markdown tables are rectangular):
+			// the original cells must be there in order, the rest empty
+			pad := true
+			for _, x := range b.Cells[r][len(a.Cells[r]):] {
+				if strings.TrimSpace(x) != "" {
+					pad = false
+				}
+			}
+			if pad {
+				b.Cells[r] = b.Cells[r][:len(a.Cells[r])]
+			}
+		}
 		if len(a.Cells[r]) != len(b.Cells[r]) {
 			return fmt.Sprintf("cols:%d->%d", len(a.Cells[r]), len(b.Cells[r]))
 		}
@@ -1479,6 +1535,43 @@ func c20Enumerate(a c20Args, f func(part, key string, mk func() []c20Elem, opt i
 						f("C", key, mk, oi)
 					}
 				}
+			}
+		}
+	}
+	// part R: tables whose rows differ in cell count (a horizontally merged row), alone and between paragraphs
+	for _, mg := range [][]int{{3, 0, 0, 1}, {3, 0, 1, 2}, {3, 0, 0, 2}, {3, 1, 0, 1}, {3, 1, 0, 2}, {2, 0, 0, 1}} {
+		for ctx := 0; ctx < 2; ctx++ {
+			mg, ctx := mg, ctx
+			mk := func() []c20Elem {
+				pos := 0
+				var els []c20Elem
+				if ctx == 1 {
+					els = append(els, c20Para(0, []int{0}, true, "t"))
+					pos = 1
+				}
+				e := c20Elem{Kind: "table", Merge: mg, Label: fmt.Sprintf("table2x%d(row %d cells %d-%d merged)", mg[0], mg[1], mg[2], mg[3])}
+				j := 0
+				for r := 0; r < 2; r++ {
+					n := mg[0]
+					if r == mg[1] {
+						n -= mg[3] - mg[2]
+					}
+					var row []c20Run
+					for c := 0; c < n; c++ {
+						row = append(row, c20R(pos, j, 0, "t"))
+						j++
+					}
+					e.Cells = append(e.Cells, row)
+				}
+				els = append(els, e)
+				if ctx == 1 {
+					els = append(els, c20Para(2, []int{0}, true, "t"))
+				}
+				return els
+			}
+			key := fmt.Sprintf("R/%v/%d", mg, ctx)
+			for _, oi := range allOpts {
+				f("R", key, mk, oi)
 			}
 		}
 	}
